@@ -8,7 +8,7 @@ from vlib.pyround import to_quantum
 PID = 'C10'
 PROPERTY_FILE = 'Properties/C10.v'
 # generated model parts (translate/) this property's model / proofs really depend on
-GEN_DEPS = ['OpsImpl', 'QuantityImpl']
+GEN_DEPS = ['OpsImpl', 'QuantityImpl', 'StateInventory']
 MODEL_TARGETS = R.MODEL_TARGETS
 PROOF_TARGETS = ['Proofs/GenOpsEq.vo', 'Proofs/C10Proofs.vo', 'Proofs/C10MoneyProofs.vo']
 COQ_HEADER = R.COQ_HEADER
